@@ -646,6 +646,14 @@ class GaussianProcessType(Enum):
         if isinstance(s, GaussianProcessType):
             return s
 
+        if not isinstance(s, str):
+            message = (
+                "Gaussian Process type must be a string or a GaussianProcessType, "
+                f"got {type(s)} instead."
+            )
+            logger.error(message)
+            raise ValueError(message)
+
         normalized_input = s.lower().replace(" ", "_")
 
         # Try to match the exact Enum value
